@@ -1079,6 +1079,25 @@ class Node(
         state["_detached_parent_path"] = self._detached_parent_path
         for child in self.__dict__.get("_children", {}).values():
             child._parent = None
+        # Likewise the graph around us: a stored node has no connections and no value
+        # links to or from its parent's IO. When we load _in place_ (we have a parent),
+        # whatever was attached to our channels gets attached to the loaded channels of
+        # the same label -- else our neighbours would stay connected to channels nobody
+        # owns any more, and we would be connected to nothing
+        old_channels = (
+            []
+            if self._parent is None
+            else [channel for panel in self._owned_io_panels for channel in panel]
+        )
+        linked_to_us = (
+            []
+            if self._parent is None
+            else [
+                sender
+                for sender in self._parent.inputs
+                if any(sender.value_receiver is c for c in old_channels)
+            ]
+        )
         self.__setstate__(state)
         # The channels in that state were made for `inst`; they are ours now
         for panel in (
@@ -1090,6 +1109,24 @@ class Node(
             for channel in panel:
                 if channel.owner is inst:
                     channel.owner = self
+        new_channels = {
+            (type(channel), channel.label): channel
+            for panel in self._owned_io_panels
+            for channel in panel
+        }
+        for old in old_channels:
+            new = new_channels.get((type(old), old.label))
+            if new is None or new is old:
+                continue
+            new.connections = list(old.connections)
+            for other in old.connections:
+                other.connections = [new if c is old else c for c in other.connections]
+            old.connections = []
+            if getattr(old, "_value_receiver", None) is not None:
+                new._value_receiver = old._value_receiver
+            for sender in linked_to_us:
+                if sender._value_receiver is old:
+                    sender._value_receiver = new
 
     load.__doc__ = cast(str, load.__doc__) + _save_load_warnings
 
